@@ -3,16 +3,21 @@ from harness import check, replay
 from checks.c02 import judge_events
 
 SEMIRINGS = ["addmul", "logaddexp", "maxadd", "minadd", "maxmul", "minmul", "orand"]
-LIMIT = {"quick": 2500, "thorough": 40000}
+LIMIT = {"quick": 1200, "thorough": 40000}
 
 
 def run(tier):
     out = check.Outcome("C08", tier)
-    rp = replay.Replay("harness.modes:c08")
-    for s in SEMIRINGS:
-        rp.run_lens("semiring_" + s, cfg="semiring_" + s if tier == "quick" else "semiring_%s_deep" % s, limit=LIMIT[tier])
-    rp.run_lens("mixed_contraction")
+    specs = [dict(module="semiring_" + s, cfg="semiring_" + s if tier == "quick" else "semiring_%s_deep" % s,
+                  limit=LIMIT[tier]) for s in SEMIRINGS]
+    specs.append(dict(module="mixed_contraction", limit=4500 if tier == "quick" else None))
+    rp = replay.run_many("harness.modes:c08", specs, parallel=4)
     out.add_replay(rp, "termmachine")
+    # implementation-shaped model of the optimizer's path loop: every path, forced onto the code
+    ro = replay.Replay("harness.modes:c08path")
+    for cfg in (["OptPath"] if tier == "quick" else ["OptPath", "OptPath_log", "OptPath4"]):
+        ro.run_lens("OptPath", cfg=cfg)
+    out.add_replay(ro, "optpath")
     events = rp.events
     jr, n_ok, n_bad, n_undef = judge_events(
         out, events, "C08", lambda e: "%s|%s" % (e["what"], replay.term_sig(e["lhs"], 2)))
@@ -25,6 +30,11 @@ def run(tier):
     cov["terms_judged_by_tlc"] = len(events)
     cov["terms_ok"] = n_ok
     cov["terms_bad"] = n_bad
+    cov["states"] += ro.states
+    cov["transitions"] += ro.transitions
+    cov["traces_validated_against_impl"] += ro.records
+    cov["optimizer_path_model"] = {"tlc_states": ro.states, "problem_path_pairs_replayed": ro.records,
+                                   "verdicts": dict(ro.counts)}
     cov["exhaustive"] = False
     out.coverage = cov
     return out.finish()
